@@ -111,12 +111,16 @@ def classify(prop, codemod, before, after1, after2):
 def run(ctx: core.Ctx, prop: str):
     rng = ctx.rng
     if ctx.quick():
-        per, nv = 2, 3
+        per, nv = 3, 3
     else:
-        per, nv = 12, 8
+        per, nv = 14, 10
     if getattr(ctx, "deep", False):
         per, nv = per * 2, nv + 2
-    jobs = corpus_jobs(prop) + e2e.build_jobs(rng, per_codemod=per, variants_per_seed=nv)
+    # the variant families that matter most for the property are always generated, the others are sampled
+    priority = {"C01": ("ctx_", "exploded", "no_final_newline", "crlf"),
+                "C02": ("second_use", "twin_import", "aliased_twin", "in_def", "in_class"),
+                "C07": ("nested_call", "twin_import", "ctx_tuple")}[prop]
+    jobs = corpus_jobs(prop) + e2e.build_jobs(rng, per_codemod=per, variants_per_seed=nv, priority=priority)
     outs = e2e.run_jobs(ctx, jobs)
     n_changed = 0
     for job, o in zip(jobs, outs):
